@@ -11,6 +11,13 @@
 (b) the property's own oracle on the rendered JSON, independent of the model: consistency,
     top-level listing, explicit-wins, conflict rejected, unknown trigger flow rejected,
     repeated renders equal.
+(c) sheet level (c06_wb.py; model Uuid/Sheet.v, engine 106 fn 3): generated WORKBOOKS in which the
+    explicit uuids are obj_id cells of flow-sheet rows that reach a FlowParser by every route
+    (flow sheet, begin_block, begin_for, template + data rows, insert_as_block — nested, with data
+    rows, with template arguments), run through one long-lived ContentIndexParser (histories of
+    parse_all / render) and, one flow sheet after the other, through FlowParser into one
+    long-lived RapidProContainer mixed with record/add/render operations; same comparison with
+    the model after every render, same oracle, the explicit sources being the cells of the sheets.
 """
 import copy
 import json
@@ -956,6 +963,7 @@ def run(ctx):
             samples.append(describe(strip_case(chunk[-1]))[:600])
 
     dict_stream(ctx, n_dict)
+    nontrivial += sheet_streams(ctx)
 
     v.coverage["distinct_nontrivial"] = nontrivial
     v.coverage["rule"] = (
@@ -967,13 +975,123 @@ def run(ctx):
         "valid by construction, 30% malformed (conflicting uuids, ghost trigger flows, triggers added early). Every "
         "case runs through the model and the implementation (trace compared) and through the property oracle on the "
         "rendered JSON. non-trivial = some name has references of >= 2 different sorts, or the history is rejected. "
-        "Plus a stream of record sequences on UUIDDict alone.")
+        "Plus a stream of record sequences on UUIDDict alone. Plus the sheet level: workbooks (1..4 flow sheets, 0..3 block "
+        "templates, data sheet, campaigns, triggers, optionally a second older workbook) whose add_to_group / "
+        "remove_from_group / split_by_group / start_new_flow rows carry obj_ids on random subsets and sit in the flow "
+        "sheet, in begin_block / begin_for, in templates instantiated with data rows, or in templates pulled in with "
+        "insert_as_block (nested, with data rows / template arguments); histories P R R P R on one ContentIndexParser and "
+        "parse-sheet / record / add / render histories on one RapidProContainer; directed workbooks for every row type x "
+        "route x (only source | conflicting source); non-trivial = some obj_id sits on a row inside insert_as_block, "
+        "begin_for or a data-row template, or the history is rejected.")
     v.coverage["samples"] = samples
     v.assumptions += [
         "uuid4 never returns a value it returned before nor a uuid present in the input (Fresh n are pairwise distinct and distinct from Given)",
         "uuids are None or str; names are None or str (the only values the constructors and from_dict produce)",
         "FlowContainer always carries a truthy uuid (its constructor invents one); checked on every generated flow",
     ]
+
+
+# ------------------------------------------------------------------------------ sheet level
+def sheet_streams(ctx):
+    """workbooks through one ContentIndexParser, and flow sheets through FlowParser into one container.
+    -> number of non-trivial cases"""
+    import c06_wb as W
+    v, rng, m = ctx.v, ctx.rng, ctx.model
+    thorough = ctx.tier == "thorough"
+    n_wb = (6000 if thorough else 230) * ctx.scale
+    n_hist = (4000 if thorough else 150) * ctx.scale
+    nontrivial = 0
+    samples = []
+
+    def classify_wb(wb, ex, prefix):
+        nt = False
+        for _, its in ex["flows"]:
+            for it in W.all_rows(its):
+                if it[1] in W.KIND_OF_ROW and it[3]:
+                    rc = W.route_class(it[6], it[5])
+                    ctx.count(f"{prefix}_objid_type_{it[1]}@{'block' if it[5] else 'sheet'}")
+                    ctx.count(f"{prefix}_objid_route_{rc}")
+                    nt = nt or rc != "sheet"
+        ctx.count(f"{prefix}_blocks_%d" % len(wb["blocks"]))
+        ctx.count(f"{prefix}_flows_%d" % len(ex["flows"]))
+        if wb.get("two_readers"):
+            ctx.count(f"{prefix}_two_workbooks")
+        return nt
+
+    # ---- (1) one ContentIndexParser per workbook: histories of parse_all / render
+    wbs = W.directed_wbs() if ctx.scale < 10 else []      # small and cheap: also on the scale-3 pass of a drifted tree
+    ctx.stats["wb_directed"] = len(wbs)
+    for i in range(n_wb):
+        wbs.append(W.gen_wb(rng, malformed=(rng.random() < 0.3), big=(thorough and i % 10 == 0)))
+    again = []
+    for wi, wb in enumerate(wbs):
+        v.coverage["evaluations"] += 1
+        ex = W.expand(wb)
+        res = W.run_impl(wb)
+        ctx.count("wb_history_" + "".join(wb["ops"]))
+        ctx.count("wb_stop_" + (res["stop"][1] if res["stop"] else "none"))
+        ctx.count("wb_stream_" + ("directed" if wb.get("directed") else "malformed" if wb["malformed"] else "valid"))
+        if wb.get("via_files"):
+            ctx.count("wb_via_csv_files")
+        if classify_wb(wb, ex, "wb") or res["stop"] is not None:
+            nontrivial += 1
+        for key, summary in W.oracle(wb, res, ex):
+            v.failing_input(key, summary, dict(fn="workbook", wb=wb))
+        if m:
+            o = m.ask(W.enc_ops_wb(wb, ex))
+            if o.startswith("(99999"):
+                ctx.disagree("model rejected the workbook request", W.describe(wb)[:2000], o, "-")
+            else:
+                snaps, mstop = dec_trace(o)
+                expl = set(u for us in W.explicit_sources(ex).values() for u in us)
+                d = W.compare_trace(["new" if x == "P" else "render" for x in wb["ops"]], res, snaps, mstop, expl)
+                if d:
+                    ctx.disagree("workbook: " + d[0], W.describe(wb)[:3000], str(d[1])[:1500], str(d[2])[:1500])
+        if len(samples) < 2 and wi % 97 == 5:
+            samples.append(W.describe(wb)[:600])
+        if res["stop"] is None and len(again) < 12 * ctx.scale and rng.random() < 0.1:
+            again.append((wb, ex, res))
+    # the same workbooks once more, later in the life of the process (class attributes, module-level caches,
+    # default arguments): the C06 projection of the result must not depend on what was compiled in between
+    for wb, ex, res in again:
+        v.coverage["evaluations"] += 1
+        ctx.count("wb_recompiled_later")
+        res2 = W.run_impl(wb)
+        expl = set(u for us in W.explicit_sources(ex).values() for u in us)
+        if res2["stop"] is not None or [W.canon_doc(d, expl) for d in res2["renders"]] != [W.canon_doc(d, expl) for d in res["renders"]]:
+            v.failing_input("compile-history-dependent", "the same workbook compiled again later in the same process gives "
+                            f"another result (stop={res2['stop']!r})", dict(fn="workbook", wb=wb))
+
+    # ---- (2) one RapidProContainer: flow sheets parsed into it by FlowParser, mixed with other operations
+    for i in range(n_hist):
+        v.coverage["evaluations"] += 1
+        wb = W.gen_wb(rng, malformed=(rng.random() < 0.3))
+        ops = W.gen_hist(rng, wb)
+        ex = W.expand(wb)
+        res = W.run_impl_hist(wb, ops)
+        ctx.count("sh_stop_" + (res["stop"][1] if res["stop"] else "none"))
+        ctx.count("sh_sheets_parsed_%d" % sum(1 for o in ops if o[0] == "pf"))
+        ctx.count("sh_record_ops_%d" % sum(1 for o in ops if o[0] in ("rg", "rf")))
+        ctx.count("sh_renders_%d" % sum(1 for o in ops if o[0] == "render"))
+        first = [j for j, o in enumerate(ops) if o[0] == "render"][0]
+        ctx.count("sh_parse_after_first_render" if any(o[0] == "pf" for o in ops[first:]) else "sh_all_parsed_before_first_render")
+        if classify_wb(wb, ex, "sh") or res["stop"] is not None:
+            nontrivial += 1
+        for key, summary in W.oracle_hist(wb, ops, res, ex):
+            v.failing_input(key, summary, dict(fn="sheet-history", wb=wb, ops=ops))
+        if m:
+            o = m.ask(W.enc_ops_hist(wb, ex, ops))
+            if o.startswith("(99999"):
+                ctx.disagree("model rejected the sheet-history request", W.describe(wb)[:2000], o, "-")
+                continue
+            snaps, mstop = dec_trace(o)
+            expl = set(it[3] for _, its in ex["flows"] for it in W.all_rows(its) if it[3]) | set(o_[2] for o_ in ops if o_[0] in ("rg", "rf") and o_[2])
+            d = W.compare_trace(["render" if x[0] == "render" else "other" for x in ops], res, snaps, mstop, expl)
+            if d:
+                ctx.disagree("sheet history: " + d[0], json.dumps(dict(wb=wb, ops=ops), ensure_ascii=False)[:3000], str(d[1])[:1500], str(d[2])[:1500])
+    ctx.v.coverage.setdefault("samples", [])
+    ctx.stats["wb_samples"] = samples
+    return nontrivial
 
 
 def strip_case(case):
@@ -983,6 +1101,26 @@ def strip_case(case):
 
 def replay(rep):
     r = rep["replay"]
+    if r["fn"] in ("workbook", "sheet-history"):
+        import logging
+        logging.getLogger("rpft.rapidpro.models.routers").setLevel(logging.ERROR)
+        import c06_wb as W
+        wb = r["wb"]
+        for rd in W.render_sheets(wb):
+            for name, (headers, rows) in rd.items():
+                print(f"  --- sheet {name}")
+                print("  " + ",".join(headers))
+                for row in rows:
+                    print("  " + ",".join(str(row.get(h, "") or "") for h in headers))
+        if r["fn"] == "workbook":
+            print("  history on one ContentIndexParser (P = parse_all, R = render):", " ".join(wb["ops"]))
+            bad = W.oracle(wb, W.run_impl(wb))
+        else:
+            print("  history on one RapidProContainer:", r["ops"])
+            bad = W.oracle_hist(wb, r["ops"], W.run_impl_hist(wb, r["ops"]))
+        for key, summary in bad:
+            print(f"  {key}: {summary}")
+        return not bad
     if r["fn"] == "dict":
         from rpft.rapidpro.models.containers import UUIDDict
         d = UUIDDict()
